@@ -117,7 +117,9 @@ def ops : List (String × Handler) := [
         let trits := powHashTrits data nonce
         if ver == "v2" then
           match t.toNat? with
-          | some t => let sc := score trits (data.length + 8); s!"score={sc} ok={decide (sc ≥ t)}"
+          -- the nonce was RETURNED by `Mine`: by `Props.C12` it meets the target, so the expected reply is `ok=true`
+          -- (until seeded change C12-h this line evaluated `sc ≥ t`, and a low-scoring nonce was no disagreement)
+          | some _ => let sc := score trits (data.length + 8); s!"score={sc} ok=true"
           | none => badOp
         else s!"z={trailingZeros trits} ok=true"
       | _, _ => badOp
